@@ -244,10 +244,11 @@ func runRelaxed(c Case, rx relax) (inf info, err error) {
 //	                              be empty when the constant is joined with a selector)
 //	"const-cmp-bool"              a comparison with `bool` between selector-free operands: folded to "never returns
 //	                              anything" when false, but with `bool` it returns 0
-//	"const-value-rewrapped"       a selector-free operand of a comparison in which the constant passes through
-//	                              something that changes its value (a function, unary minus, count/group/stddev/
-//	                              stdvar/count_values/quantile/topk/bottomk, vector matching with on/ignoring/group):
-//	                              pint folds with the unchanged number
+//	"const-value-rewrapped"       an operand of a comparison in which a constant passes through something that changes
+//	                              its value (a function incl. scalar()/time()/pi() as the other operand of arithmetic,
+//	                              unary minus, atan2, count/group/stddev/stdvar/count_values/quantile/topk/bottomk,
+//	                              vector matching with on/ignoring/group, `number cmp vector`): pint folds with the
+//	                              unchanged (stale) number
 //	"const-joined-with-selector"  a vector-to-vector operation (not `or`) between a selector-free operand and an
 //	                              operand holding a selector: pint keeps AlwaysReturns/KnownReturn of the constant
 //	                              side although the result depends on stored data
@@ -322,8 +323,11 @@ func changesValue(n promParser.Node) bool {
 			if vm := v.VectorMatching; vm != nil && (vm.On || len(vm.MatchingLabels) > 0 || vm.Card != promParser.CardOneToOne) {
 				found = true
 			}
-			if v.ReturnBool {
-				found = true
+			if v.ReturnBool || v.Op == promParser.ATAN2 {
+				found = true // (calculateStaticReturn has no atan2 case: the left number is kept)
+			}
+			if v.Op.IsComparisonOperator() && !v.ReturnBool && v.LHS.Type() == promParser.ValueTypeScalar && v.RHS.Type() == promParser.ValueTypeVector {
+				found = true // `1 != vector(0)` keeps the vector's value, pint keeps the scalar's
 			}
 		}
 	})
@@ -356,7 +360,7 @@ func syntacticClasses(node promParser.Node) map[string]bool {
 				out["const-cmp-bool"] = true
 			}
 			if v.Op.IsComparisonOperator() {
-				if !lsel && hasConst(v.LHS) && changesValue(v.LHS) || !rsel && hasConst(v.RHS) && changesValue(v.RHS) {
+				if (hasConst(v.LHS) || !lsel) && changesValue(v.LHS) || (hasConst(v.RHS) || !rsel) && changesValue(v.RHS) {
 					out["const-value-rewrapped"] = true
 				}
 			}
